@@ -389,7 +389,10 @@ Proof.
   { destruct x; cbn [encode_native] in Henc; ids; cbn [Z.eqb Pos.eqb orb] in Henc; try discriminate.
     destruct ((length b0 =? 4)%nat || (length b0 =? 16)%nat) eqn:E; [|discriminate]. injection Henc as <-. split; [reflexivity|exact E]. }
   destruct Hx as [-> Hl]. unfold dec_compat in Hc. cbn in Hc. subst t. cbn [dec_clean] in Hcl.
-  cbn [unmarshal_inet bytes_of] in Hu. rewrite Hl in Hu.
+  cbn [unmarshal_inet bytes_of] in Hu.
+  assert (Hz : (length b =? 0)%nat = false).
+  { destruct (length b) as [|n]; [discriminate Hl | reflexivity]. }
+  rewrite Hz, Hl in Hu.
   assert (Hto4 : ip_to4 b = if (length b =? 4)%nat then Some b else None).
   { unfold ip_to4. destruct (length b =? 4)%nat; [reflexivity|]. unfold v4_mapped in Hcl. rewrite Hcl. reflexivity. }
   rewrite Hto4 in Hu.
